@@ -148,7 +148,8 @@ def worker(job):
                 # adhoc has a dedicated placement for SECP-like models (a factor hosted with one of its variables)
                 inst = distgen.gen_instance(rng, graph="factor_graph", secp_hint_p=0.8)
             else:
-                inst = distgen.gen_instance(rng, graph=graph)
+                # the pinning methods get more instances with computations pinned by a cost of 0 and tight capacities
+                inst = distgen.gen_instance(rng, graph=graph, pin_bias=method in distgen.PINNING and rng.random() < 0.6)
             P, outcome = api_run(inst, method)
             api = "api"
         ncomp = len(inst["footprints"])
